@@ -9,7 +9,7 @@ GEN = os.path.join(os.path.dirname(os.path.abspath(__file__)), "..", "coq", "Gen
 
 def main():
     translate.generate(GEN)
-    for name in ("translate_expr", "translate_registry", "translate_copy", "translate_one", "translate_replacemap", "translate_stmtbase"):
+    for name in ("translate_expr", "translate_registry", "translate_copy", "translate_one", "translate_replacemap", "translate_stmtbase", "translate_srm"):
         try:
             mod = __import__(name)
         except ImportError:
